@@ -419,6 +419,11 @@ func (s *Sched) Enabled() []Choice {
 			if g {
 				cs = append(cs, Choice{"resume", t.id})
 			}
+		case "append.enter":
+			// the append critical section is a mutex of the code under test: probe it instead of blocking
+			if !s.cmd.VerifAppendLocked() {
+				cs = append(cs, Choice{"resume", t.id})
+			}
 		case "wait":
 			if t.kv["dry"] == "true" || s.persisted(t.kv["id"]) {
 				cs = append(cs, Choice{"resume", t.id})
